@@ -198,8 +198,8 @@ def apply_abstract(sh, a, ops, val):
         ops.append([4, sid, src]); new_sub(sh, sid, sh.subs[src]["mode"], sh.subs[src]["pos"])
     elif k == "L":
         sid = a[1]
-        if sid not in sh.subs or not sh.subs[sid]["live"] or sh.subs[sid]["pc"] == "parked" or sh.subs[sid].get("blk"):
-            return False
+        if sid not in sh.subs or not sh.subs[sid]["live"] or sh.subs[sid].get("blk"): return False
+        if sh.subs[sid]["pc"] == "parked" and not (len(a) > 2 and a[2]): return False   # ("L", s, 1) = also while parked
         ops.append([9, sid]); sh.subs[sid]["live"] = False
     elif k == "Q":
         sid = a[1]
@@ -241,7 +241,7 @@ def gen_random(rng, name, nletters):
         elif r < 0.81: letters.append(("S", s, rng.choice(modes)))
         elif r < 0.86: letters.append(("A", s, rng.choice(modes), rng.choice([0, 1, 1, 2, 3, 6, -1, -2])))
         elif r < 0.92: letters.append(("Y", s, rng.choice(sids)))
-        elif r < 0.96: letters.append(("L", s))
+        elif r < 0.96: letters.append(("L", s, rng.choice([0, 0, 1])))
         else: letters.append(("Q", s))
     if rng.random() < 0.7:
         letters = [("S", 0, rng.choice(modes))] + letters
@@ -337,6 +337,10 @@ def boundary_cases():
         add(1, 0, [S0, N0, N0, ("B", 2), N0, N0, N0, N0, N0])
         add(1, 1, [S0, P, N0, P, N0, N0, N0, N0, N0])
         add(1, 0, [S0, P, C, O0, O0, O0, O0])
+        # a subscriber destroyed while its awaiter is parked: that awaiter must never be resumed
+        add(1, 0, [S0, N0, N0, ("L", 0, 1), P, C])
+        add(1, 0, [S0, ("S", 1, mode), N0, N0, N1, N1, ("L", 0, 1), P, N1, N1, ("S", 2, mode), ("N", 2), ("N", 2), P, ("N", 2), C])
+        add(1, 0, [S0, N0, N0, ("Y", 1, 0), ("L", 0, 1), P, N1, N1, ("K", 0), ("D",)])
         # two parked subscribers woken by one publish / close / ~publisher
         for w in (P, C, ("D",), ("B", 2)):
             add(1, 0, [S0, ("S", 1, mode), N0, N0, N1, N1, w, N0, N1, N0, N1, N0, N1])
@@ -372,8 +376,6 @@ def exhaustive(maxlen, mode, cfgs, alpha=None):
 
 def gen(seed, tier):
     rng = random.Random(seed * 104729 + 16)
-    # a hang (a blocked helper thread never woken) costs the whole batch timeout: keep it short in the quick tier
-    PARTS[0]["timeout_case"] = 3 if tier == "quick" else 30
     cases = boundary_cases()
     n = 1200 if tier == "quick" else 12000
     for i in range(n):
